@@ -25,6 +25,11 @@ def call(I, fn, args, kwargs):
         return call_special(I, fn, args, kwargs)
     if I.is_repo_fn(fn):
         return I.call_function(fn, list(args), kwargs)
+    owner = getattr(fn, "__self__", None)
+    if owner is not None and getattr(I, "random_model", None) is not None:
+        r = I.random_model(I, owner, getattr(fn, "__name__", ""), args, kwargs)
+        if r is not NotImplemented:
+            return r
     if isinstance(fn, operator.itemgetter) and len(args) == 1 and not kwargs:
         keys = fn.__reduce__()[1]
         vals = [I.index(args[0], k) for k in keys]
@@ -50,6 +55,7 @@ def call(I, fn, args, kwargs):
         return container_method(I, fn, args, kwargs)
     if any(deep_sym(a) for a in args) or any(deep_sym(a) for a in kwargs.values()):
         raise Unsupported(f"external call with symbolic arguments: {getattr(fn, '__qualname__', fn)!r}")
+    I.external_calls.add(f"{getattr(fn, '__module__', '?')}.{getattr(fn, '__qualname__', getattr(fn, '__name__', repr(fn)))}")
     try:
         r = fn(*args, **kwargs)
     except Exception as ex:  # noqa: BLE001 - any exception of an external call is an outcome of the path
@@ -566,6 +572,8 @@ def m_zip(I, *its, strict=False):
     for it in its:
         if isinstance(it, SCycle):
             lists.append(it)
+        elif isinstance(it, (itertools.cycle, itertools.count, itertools.repeat)):
+            I.iterate(it)       # raises: a shared live iterator
         else:
             lst = I.iterate(it)
             lists.append(lst)
